@@ -265,6 +265,7 @@ func (RaceScenario) Execute(sim *sched.Sim, ci interface{}, prop string, race bo
 			r.Model(map[string]int{"v": 1})
 		}),
 		res.Call("set", func(r res.CallRequest) {
+			r.Timeout(time.Duration(1000+idIndex(r.PathParam("id"))) * time.Millisecond)
 			handler(idIndex(r.PathParam("id")), true)(r)
 			r.ChangeEvent(map[string]interface{}{"v": 2})
 			r.OK(nil)
@@ -304,7 +305,11 @@ func (RaceScenario) Execute(sim *sched.Sim, ci interface{}, prop string, race bo
 	)
 	// parallel handlers share nothing
 	svc.Handle("par.$id", res.Parallel(true),
-		res.GetModel(func(r res.ModelRequest) { sim.Yield("handler", "par"); r.Model(map[string]int{"p": 1}) }),
+		res.GetModel(func(r res.ModelRequest) {
+			r.Timeout(2 * time.Second)
+			sim.Yield("handler", "par")
+			r.Model(map[string]int{"p": 1})
+		}),
 		res.Call("set", func(r res.CallRequest) { r.OK(nil) }),
 		// a value that cannot be encoded: the error path of the response
 		// encoder runs, then other workers encode their responses
